@@ -67,6 +67,10 @@ type WOp struct {
 	Back int `json:"back,omitempty"`
 	// Bulk adds N updates At/k<Start>..At/k<Start+N-1>[/Leaf] with value V.
 	Bulk *Bulk `json:"bulk,omitempty"`
+	// Via>0: the notification (whose prefix names target T) is handed to the exported per-target entry point
+	// cache.GetTarget(<target (T+Via) mod n>).GnmiUpdate: it is stored in ANOTHER target's tree while every
+	// response built from it still names T. Scenarios with such a write are judged by the trace monitors only.
+	Via int `json:"via,omitempty"`
 }
 
 // Bulk is a run of sibling leaves written by one notification: sizes past the
@@ -89,6 +93,9 @@ type Step struct {
 	ParkFeed bool   `json:"park_feed,omitempty"` // w: park between tree write and feed
 	ParkCB   int    `json:"park_cb,omitempty"`   // w (noti, reset): park inside the feed callback after its ParkCB-th entry was forwarded
 	N        int    `json:"n,omitempty"`         // grant: credits; sleep: virtual seconds; relw: which parked writer
+	// pollflood: what the client of POLL subscription Sub does while its receive side is stalled
+	// (no credit): 0 = one more poll trigger, k>0 = let k sends pass.
+	Flood []int `json:"flood,omitempty"`
 }
 
 // ACLSpec is the access-control table.
@@ -146,6 +153,7 @@ type profile struct {
 	aclPct                 int // percentage of scenarios with an access-control table (acl=true means 100)
 	bulkPct                int // percentage of writer notifications that carry a bulk run
 	bulkNs                 []int
+	viaPct                 int // percentage of scenarios in which writers also use another target's per-target entry point
 }
 
 var profiles = map[string]profile{
@@ -157,7 +165,7 @@ var profiles = map[string]profile{
 		weights: map[string]int{"w": 6, "start": 6, "release": 3, "poll": 6, "eof": 2, "grant": 2, "drain": 2, "sleep": 2, "wrace": 2},
 		wkinds:  []string{"noti", "noti", "noti", "noti", "reset", "remove", "add"},
 		parks:   []string{"", "", "sub.walk.begin", "sub.walk.end", "coalesce.next.empty", "coalesce.next.empty"}},
-	"C07": {minTargets: 2, maxTargets: 4, modes: []string{"stream", "stream", "once", "poll"}, acl: true, gatedPct: 15, maxSteps: 30, maxSubs: 4, preload: 4, starPct: 60, pickPct: 30, timeout: true, bulkPct: 3, bulkNs: []int{5, 40, 70},
+	"C07": {minTargets: 2, maxTargets: 4, modes: []string{"stream", "stream", "once", "poll"}, acl: true, gatedPct: 15, maxSteps: 30, maxSubs: 4, preload: 4, starPct: 60, pickPct: 30, timeout: true, bulkPct: 3, bulkNs: []int{5, 40, 70}, viaPct: 10,
 		weights: map[string]int{"w": 14, "start": 6, "release": 3, "relw": 2, "poll": 2, "grant": 2, "check": 2, "drain": 2, "sleep": 2, "aclflip": 2},
 		wkinds:  []string{"noti", "noti", "noti", "noti", "noti", "noti", "reset", "remove", "add"},
 		parks:   []string{"", "", "sub.registered", "sub.walk.begin"}},
@@ -171,13 +179,17 @@ var profiles = map[string]profile{
 		parks:   []string{"", "", "sub.registered"}},
 }
 
-var stepOrder = []string{"w", "start", "release", "relw", "grant", "poll", "eof", "cancel", "sleep", "check", "drain", "rmadd", "wrace", "aclflip"}
+var stepOrder = []string{"w", "start", "release", "relw", "grant", "poll", "eof", "cancel", "sleep", "check", "drain", "rmadd", "wrace", "aclflip", "pollflood"}
 
 // richNames switches the element alphabet of the scenario being generated to
 // names of which one is a string prefix of another and one contains the "/"
 // that a joined representation would use as its separator (set from a rapid
 // draw at the start of every scenario; generation is single-threaded).
 var richNames bool
+
+// viaScenario: in the scenario being generated some writer notifications are handed to the per-target entry
+// point of another target than the one their prefix names (WOp.Via).
+var viaScenario bool
 
 func siblingOdds() int {
 	if richNames {
@@ -251,6 +263,9 @@ func genWOp(pr profile, targets int) func(t *rapid.T) *WOp {
 		}
 		if rapid.IntRange(0, 5).Draw(t, "backdated") == 0 {
 			w.Back = rapid.IntRange(1, 6).Draw(t, "back")
+		}
+		if viaScenario && targets > 1 && rapid.IntRange(0, 99).Draw(t, "via") < 30 {
+			w.Via = rapid.IntRange(1, targets-1).Draw(t, "via-target")
 		}
 		if pr.bulkPct > 0 && rapid.IntRange(0, 99).Draw(t, "bulk") < pr.bulkPct {
 			defer func() {
@@ -503,14 +518,99 @@ func genBurstScenario(t *rapid.T) *Scenario {
 	return sc
 }
 
+// genFlood draws what an impatient POLL client does while it is not reading: poll triggers, now and then letting a send pass.
+func genFlood(t *rapid.T) []int {
+	k := rapid.SampledFrom([]int{1, 2, 2, 3, 3, 5, 8, 17, 40, 300}).Draw(t, "flood-polls")
+	var out []int
+	for i := 0; i < k; i++ {
+		out = append(out, 0)
+		if i < 12 && rapid.IntRange(0, 5).Draw(t, "flood-grant") == 0 {
+			out = append(out, rapid.IntRange(1, 2).Draw(t, "flood-credits"))
+		}
+	}
+	return out
+}
+
+// genPollFloodScenario is the second structured C08 shape: a POLL client that stops reading and keeps
+// polling (the handler goes on reading requests and walking the cache whatever the send side does), next to
+// other subscribers; then sleeps around the send timeout and drains.
+func genPollFloodScenario(t *rapid.T) *Scenario {
+	sc := &Scenario{Targets: rapid.IntRange(1, 2).Draw(t, "targets")}
+	sc.EventDriven = rapid.Bool().Draw(t, "eventdriven")
+	sc.TimeoutSec = rapid.SampledFrom([]int{0, 10, 10, 30}).Draw(t, "timeout")
+	nsubs := rapid.IntRange(1, 3).Draw(t, "nsubs")
+	for i := 0; i < nsubs; i++ {
+		sp := SubSpec{Mode: "poll", Target: rapid.IntRange(-1, sc.Targets-1).Draw(t, "target"), Gated: true}
+		if i > 0 {
+			sp.Mode = rapid.SampledFrom([]string{"poll", "stream", "stream"}).Draw(t, "mode")
+			sp.Gated = rapid.Bool().Draw(t, "gated")
+		}
+		sp.UpdatesOnly = rapid.IntRange(0, 5).Draw(t, "updonly") == 0
+		sp.Deadline = rapid.IntRange(0, 3).Draw(t, "deadline") == 0
+		np := rapid.IntRange(1, 2).Draw(t, "npaths")
+		for j := 0; j < np; j++ {
+			sp.Paths = append(sp.Paths, PathSpec{Elems: genElems(t, 0, 1, true)})
+		}
+		sc.Subs = append(sc.Subs, sp)
+	}
+	single := func(label string) *WOp {
+		w := &WOp{Kind: "noti", T: rapid.IntRange(0, sc.Targets-1).Draw(t, label+"t")}
+		switch rapid.IntRange(0, 9).Draw(t, label+"shape") {
+		case 0:
+			w.Deletes = [][]gn.Elem{genElems(t, 1, 2, true)}
+			w.Pick = rapid.IntRange(0, 3).Draw(t, label+"pick")
+		case 1:
+			w.Bulk = &Bulk{Start: 0, N: rapid.SampledFrom([]int{5, 20, 33, 70}).Draw(t, label+"n"), V: int64(rapid.IntRange(0, 1).Draw(t, label+"v"))}
+		case 2:
+			w.Kind = rapid.SampledFrom([]string{"sync", "updmeta", "reset"}).Draw(t, label+"kind")
+		default:
+			w.Updates = []Upd{{Path: genElems(t, 1, 2, false), Val: genVal(t)}}
+			w.Pick = rapid.IntRange(0, 3).Draw(t, label+"pick")
+		}
+		return w
+	}
+	for i, n := 0, rapid.IntRange(1, 6).Draw(t, "preload"); i < n; i++ {
+		sc.Steps = append(sc.Steps, Step{Kind: "w", W: single("pre")})
+	}
+	for i := 0; i < nsubs; i++ {
+		sc.Steps = append(sc.Steps, Step{Kind: "start", Sub: i})
+	}
+	sc.Steps = append(sc.Steps, Step{Kind: "drain"})
+	rounds := rapid.IntRange(1, 3).Draw(t, "rounds")
+	for r := 0; r < rounds; r++ {
+		for i, n := 0, rapid.IntRange(0, 3).Draw(t, "writes"); i < n; i++ {
+			sc.Steps = append(sc.Steps, Step{Kind: "w", W: single("w")})
+		}
+		if rapid.Bool().Draw(t, "drain-first") {
+			sc.Steps = append(sc.Steps, Step{Kind: "drain"})
+		}
+		sc.Steps = append(sc.Steps, Step{Kind: "pollflood", Sub: rapid.IntRange(0, nsubs-1).Draw(t, "fsub"), Flood: genFlood(t), N: rapid.SampledFrom([]int{0, 0, 0, 1}).Draw(t, "stay-away")})
+		switch rapid.IntRange(0, 3).Draw(t, "after") {
+		case 0:
+			sc.Steps = append(sc.Steps, Step{Kind: "sleep", N: rapid.SampledFrom([]int{1, 9, 10, 11, 30, 60, 61}).Draw(t, "secs")})
+		case 1:
+			sc.Steps = append(sc.Steps, Step{Kind: "w", W: single("a")})
+		}
+		sc.Steps = append(sc.Steps, Step{Kind: "drain"})
+	}
+	return sc
+}
+
 func genScenario(prop string) func(t *rapid.T) *Scenario {
 	pr := profiles[prop]
 	return func(t *rapid.T) *Scenario {
-		if prop == "C08" && rapid.IntRange(0, 3).Draw(t, "structured") > 0 {
-			richNames = false
-			return genBurstScenario(t)
+		if prop == "C08" {
+			switch shape := rapid.IntRange(0, 7).Draw(t, "structured"); {
+			case shape == 2:
+				richNames = false
+				return genPollFloodScenario(t)
+			case shape > 2:
+				richNames = false
+				return genBurstScenario(t)
+			}
 		}
 		richNames = rapid.IntRange(0, 2).Draw(t, "rich-names") == 0
+		viaScenario = pr.viaPct > 0 && rapid.IntRange(0, 99).Draw(t, "via-scenario") >= 100-pr.viaPct
 		var tnames []string
 		if rapid.IntRange(0, 5).Draw(t, "odd-target-names") == 0 {
 			tnames = rapid.SampledFrom(oddTargetNames).Draw(t, "tnames")
